@@ -331,6 +331,9 @@ const S2_ADD: &[&str] = &[
     "/adv/track*frame",
     // no pattern token, two initiator domains: filed once per domain
     "*$script,domain=d1.com|d2.com",
+    // a redirect that is also an exception / an important rule: two categories at once
+    "@@||r.com^$redirect=a",
+    "||rr.com/x$important,redirect=a",
 ];
 const S2_URLS: &[(&str, &str)] = &[
     ("https://b1.com/x", "script"),
